@@ -193,14 +193,30 @@ Inductive ev :=
   | ESetErr                             (* np.seterr(..) / seterrcall / seterrobj: overwrites the global register *)
   | EWith (body : list ev)              (* with np.errstate(..): saves, sets, runs body, restores - also on raise *)
   | EStore (r : list nat)               (* self.<field> = array rooted at r  (object construction) *)
-  | ECall (f : string) (args : list (list nat)).   (* call of another function of the table, with the roots of its arguments *)
+  | ECall (f : string) (args : list (list nat))    (* call of another function of the table, with the roots of its arguments *)
+  | ERet (r : list nat).                (* return <array / box rooted at r>  ([] = an object created by this call) *)
 
 (* functions DOCUMENTED to modify their first argument (self): everything else must be read-only *)
 Definition self_mutators : list string :=
   ["AABB.pad"; "Vec.normalize"; "Vec.x.setter"; "Vec.y.setter"; "Vec.z.setter"]%string.
 (* object constructors (may store into self's fields) *)
 Definition constructors : list string := ["AABB.__init__"]%string.
+(* constructors / classmethods / primitives that PROMISE a new object on every call: what they return must not be
+   (a view of) an argument, a field of self, or anything that outlives the call (a memo cache, a module-level object) *)
+Definition fresh_returners : list string :=
+  ["AABB.unit_cube"; "AABB.infinite"; "AABB.of_points"; "AABB.of_mesh"; "AABB.intersection"; "AABB.union";
+   "AABB.span"; "AABB.center"; "Vec.zeros"; "Vec.random"; "Vec.X"; "Vec.Y"; "Vec.Z"; "Vec.from_complex";
+   "cross"; "rotate_2d"]%string.
 Definition str_in (s : string) (l : list string) : bool := existsb (String.eqb s) l.
+(* the roots of everything a body may return (also from inside `with` blocks) *)
+Fixpoint rets_ev (e : ev) : list (list nat) :=
+  match e with
+  | ERet r => [r]
+  | EWith body => (fix go (l : list ev) : list (list nat) := match l with [] => [] | x :: t => rets_ev x ++ go t end) body
+  | _ => []
+  end.
+Definition rets (l : list ev) : list (list nat) := flat_map rets_ev l.
+Definition is_nil {A} (l : list A) : bool := match l with [] => true | _ => false end.
 
 Section Check.
   Variable tbl : list (string * list ev).
@@ -221,9 +237,11 @@ Section Check.
         (if str_in f self_mutators
          then match args with r0 :: _ => roots_ok may0 r0 | [] => false end
          else true)
+    | ERet _ => true
     end.
   Definition body_ok (may0 ctor inw : bool) (l : list ev) : bool := forallb (ev_ok may0 ctor inw) l.
   Definition fun_ok (p : string * list ev) : bool :=
-    body_ok (str_in (fst p) self_mutators) (str_in (fst p) constructors) false (snd p).
+    body_ok (str_in (fst p) self_mutators) (str_in (fst p) constructors) false (snd p)
+    && (if str_in (fst p) fresh_returners then forallb is_nil (rets (snd p)) else true).
   Definition table_ok : bool := forallb fun_ok tbl.
 End Check.
